@@ -469,6 +469,15 @@ class Mitochondria:
             raise ValueError(f"Unknown tool: {tool_name}. Available: {available}")
 
         tool = self.tools[tool_name]
+        self._require_capabilities(tool_name, tool)
+
+        args = [self._compute_node(arg) for arg in tree.body.args]
+        kwargs = {kw.arg: self._compute_node(kw.value) for kw in tree.body.keywords if kw.arg}
+
+        return tool.execute(*args, **kwargs)
+
+    def _require_capabilities(self, tool_name: str, tool: Tool) -> None:
+        """Least privilege: refuse a tool whose declared capabilities exceed the allowed set."""
         required_caps = (
             getattr(tool, "required_capabilities", None)
             or getattr(tool, "capabilities", None)
@@ -482,11 +491,6 @@ class Mitochondria:
             raise PermissionError(
                 f"Tool '{tool_name}' requires disallowed capabilities: {missing}"
             )
-
-        args = [self._compute_node(arg) for arg in tree.body.args]
-        kwargs = {kw.arg: self._compute_node(kw.value) for kw in tree.body.keywords if kw.arg}
-
-        return tool.execute(*args, **kwargs)
 
     def _beta_oxidation(self, expression: str) -> Any:
         """
@@ -671,6 +675,7 @@ class Mitochondria:
 
         try:
             tool = self.tools[call.name]
+            self._require_capabilities(call.name, tool)
             result = tool.execute(**call.arguments)
             return ToolResult(
                 call_id=call.id,
